@@ -57,7 +57,7 @@ func (x *c18Exec) assign(fr *c18Frame, as *ast.AssignStmt) {
 			store(l, vals[i])
 		}
 	case len(as.Rhs) == 1:
-		v := x.eval(fr, as.Rhs[0])
+		v := x.evalMulti(fr, as.Rhs[0], len(as.Lhs))
 		for i, l := range as.Lhs {
 			if v.k == c18KTuple && len(v.elems) == len(as.Lhs) {
 				store(l, v.elems[i])
@@ -73,7 +73,7 @@ func (x *c18Exec) assign(fr *c18Frame, as *ast.AssignStmt) {
 func (x *c18Exec) valueSpec(fr *c18Frame, vs *ast.ValueSpec) {
 	var tuple *c18Val
 	if len(vs.Values) == 1 && len(vs.Names) > 1 {
-		v := x.eval(fr, vs.Values[0])
+		v := x.evalMulti(fr, vs.Values[0], len(vs.Names))
 		tuple = &v
 	}
 	for i, nm := range vs.Names {
